@@ -262,7 +262,7 @@ Inductive G : nat -> nat -> gp -> Prop :=
 | G_abort a b : 1 <= a -> G a b GAbort
 | G_yield a b v k : 1 <= a -> G b b k -> G a b (GYield v k)
 | G_tick a b k : G a b k -> G (S a) b (GTick k)
-| G_int a b lo hi k : (forall z, G a b (k z)) -> G (S a) b (GInt lo hi k)
+| G_int a b lo hi k : (forall z, (lo <= z <= hi)%Z \/ (hi < lo)%Z -> G a b (k z)) -> G (S a) b (GInt lo hi k)
 | G_real a b lo hi k : (forall q, G a b (k q)) -> G (S a) b (GReal lo hi k)
 | G_val a b ok d k : (forall v, G a b (k v)) -> G (S a) b (GVal ok d k)
 | G_seq a b a' b' B g k : G a b g -> G a' b' k -> b + a' <= B -> b' <= B -> G (a + a') B (GSeq g k)
@@ -274,10 +274,18 @@ Inductive G : nat -> nat -> gp -> Prop :=
     G a b cur -> MustYield cur -> G a0 b0 body -> MustYield body -> b + a0 <= B -> b0 + a0 <= B -> a0 <= B -> G a B (GLoop body cur)
 | G_take a cc a' b' n g acc k :
     G a cc g -> a <= cc -> (forall vs, G a' b' (k vs)) -> G (a + n * cc + 1 + a') b' (GTake n g acc k)
+| G_round_pull a cc a' b' B n gs i buf emit k :      (* zip / interleave: still pulling from generator i *)
+    i < n -> List.length buf = i -> (forall j, j <> i -> G cc cc (gs j)) -> G a cc (gs i) -> a <= cc ->
+    (forall vs, List.length vs = n -> emit vs <> []) -> G a' b' k -> n * cc + 2 + a' <= B -> b' <= B ->
+    G (a + (n - 1 - i) * cc + 2 + a') B (GRound n gs i buf emit k)
+| G_round_emit cc a' b' B n gs buf emit k :           (* all n delivered: the round is emitted next *)
+    1 <= n -> List.length buf = n -> (forall j, G cc cc (gs j)) ->
+    (forall vs, List.length vs = n -> emit vs <> []) -> G a' b' k -> n * cc + 2 + a' <= B -> b' <= B ->
+    G 2 B (GRound n gs n buf emit k)
 | G_mono a b a' b' g : G a b g -> a <= a' -> b <= b' -> G a' b' g.
 
 Lemma G_pos a b g : G a b g -> 1 <= a.
-Proof. induction 1; lia. Qed.
+Proof. induction 1; try lia; nia. Qed.
 
 (* a program that must yield does not end (normally) as its next event *)
 Lemma MustYield_no_stop g : MustYield g -> forall o c g' c', step g o c <> (EStop, g', c').
@@ -314,6 +322,12 @@ Fixpoint next_event (fuel : nat) (g : gp) (o : oracle) (c : nat) : option (event
            match e with ETick => next_event f g' o c' | _ => Some (e, g', c') end
   end.
 
+Lemma G_emit_all a b vs k : 1 <= a -> 1 <= b -> G b b k -> G a b k -> G a b (emit_all vs k).
+Proof.
+  intros Ha Hb Hk Hk'. destruct vs as [|v r]; cbn; [exact Hk'|]. constructor; [exact Ha|].
+  induction r as [|x r IH]; cbn; [exact Hk|]. constructor; [exact Hb|exact IH].
+Qed.
+
 Theorem G_step a b g : G a b g -> forall o c e g' c', step g o c = (e, g', c') ->
   match e with
   | ETick => exists a', a = S a' /\ G a' b g'
@@ -326,7 +340,7 @@ Proof.
   - injection E as <- <- <-. exact I.
   - injection E as <- <- <-. assumption.
   - injection E as <- <- <-. eauto.
-  - injection E as <- <- <-. eauto.
+  - injection E as <- <- <-. exists a. split; [reflexivity|]. apply H. apply clampZ_range.
   - injection E as <- <- <-. eauto.
   - injection E as <- <- <-. eauto.
   - (* seq *) destruct (step g o c) as [[e1 g1] c1] eqn:E1. specialize (IHG1 _ _ _ _ _ E1). pose proof (G_pos _ _ _ H).
@@ -366,6 +380,34 @@ Proof.
       * destruct IHG as (a1 & -> & Hg). exists (a1 + S n' * cc + 1 + a'). split; [lia|]. eapply G_take; eauto. lia.
       * exists (a - 1 + S n' * cc + 1 + a'). split; [lia|]. eapply G_mono; [apply H1|lia|lia].
       * exists (a - 1 + S n' * cc + 1 + a'). split; [lia|]. eapply G_mono; [apply H1|lia|lia].
+  - (* round, pulling *) pose proof (G_pos _ _ _ H3) as Hpa.
+    destruct (Nat.eqb_spec n 0) as [Hn0|Hn0]; [lia|]. destruct (Nat.leb_spec n i) as [Hle|Hlt]; [lia|].
+    destruct (step (gs i) o c) as [[e1 g1] c1] eqn:E1. specialize (IHG1 _ _ _ _ _ E1).
+    assert (Hothers : forall g1', forall j, j <> i -> G cc cc (if Nat.eqb j i then g1' else gs j)).
+    { intros g1' j Hj. destruct (Nat.eqb_spec j i); [contradiction|]. apply H1. exact Hj. }
+    destruct e1 as [v| | |]; injection E as <- <- <-.
+    + (* the generator delivered: next generator, or the round is complete *)
+      exists (a - 1 + (n - 1 - i) * cc + 2 + a'). split; [lia|].
+      destruct (Nat.eq_dec (S i) n) as [Hlast|Hmore].
+      * subst n. eapply G_mono; [eapply (G_round_emit cc a' b' B (S i)); eauto; try lia|lia|lia].
+        all: try (cbn; lia).
+        all: intros j; destruct (Nat.eqb_spec j i); [subst; exact IHG1|apply H1; assumption].
+      * eapply G_mono; [eapply (G_round_pull cc cc a' b' B n _ (S i)); eauto; try lia|nia|lia].
+        all: try (cbn; lia).
+        all: try (intros j Hj; destruct (Nat.eqb_spec j i); [subst; exact IHG1|apply H1; assumption]).
+        all: try (destruct (Nat.eqb_spec (S i) i); [lia|]; apply H1; lia).
+    + destruct IHG1 as (a1 & -> & Hg). exists (a1 + (n - 1 - i) * cc + 2 + a'). split; [lia|].
+      eapply G_round_pull; eauto; try lia. rewrite Nat.eqb_refl. exact Hg.
+    + exists (a - 1 + (n - 1 - i) * cc + 2 + a'). split; [lia|]. eapply (G_mono a' b'); [assumption|nia|lia].
+    + exists (a - 1 + (n - 1 - i) * cc + 2 + a'). split; [lia|]. eapply (G_mono a' b'); [assumption|nia|lia].
+  - (* round, emitting *)
+    destruct (Nat.eqb_spec n 0) as [Hn0|Hn0]; [lia|]. destruct (Nat.leb_spec n n) as [Hle|Hlt]; [|lia].
+    injection E as <- <- <-. exists 1. split; [reflexivity|].
+    assert (Hrestart : G B B (GRound n gs 0 [] emit k)).
+    { eapply G_mono; [eapply (G_round_pull cc cc a' b' B n gs 0); eauto; try lia|nia|lia]. }
+    assert (Hne : emit (rev buf) <> []) by (apply H3; rewrite rev_length; assumption).
+    destruct (emit (rev buf)) as [|v r]; [contradiction|]. cbn. constructor; [lia|].
+    clear Hne. induction r as [|x r IHr]; cbn; [exact Hrestart|]. constructor; [pose proof (G_pos _ _ _ Hrestart); lia|exact IHr].
   - (* mono *) specialize (IHG _ _ _ _ _ E). destruct e as [v| | |]; try exact I.
     + eapply G_mono; [eassumption|lia|lia].
     + destruct IHG as (a1 & -> & Hg). exists (a1 + (a' - S a1)). split; [lia|]. eapply G_mono; [eassumption|lia|lia].
